@@ -88,6 +88,29 @@ CLAIMED = {
    "site rules over SSA (value provenance) + decision-table extraction + sibling field-set agreement"),
 }
 
+# techniques added while building (see DESIGN.md §0)
+TECH_EXTRA = {
+ "C01": "ownership/retention dataflow (what the Writer may keep from its argument) + sibling agreement with strconv by symbolic region tables (E8)",
+ "C02": "per-element backing-array rule + path-condition table of the integer fast path + decision table of Files.init",
+ "C03": "sibling agreement with $GOROOT strconv by symbolic region tables (E8) + saturation contract between ParseUint and ParseInt",
+ "C04": "flow-sensitive judgement of the recorded Value per path (E6) + identity-return guard table",
+ "C05": "cut-point region tables for the -N splitter",
+ "C06": "cache-key completeness incl. branch conditions + concrete per-word evaluation of All/Any",
+ "C07": "errors overwritten in loops (dataflow over loop-carried values) with positive control",
+ "C08": "cache-key completeness for stored decisions (field-sensitive backward slices)",
+ "C09": "per-field ownership of observation tables + shift-range analysis from literal tables (positive control)",
+ "C11": "tails specified from the property (step by ties), integer-division semantics, guarded quotients, PMF index table",
+ "C12": "re-entrancy of returned closures (effect summaries) + dominating length bounds before divisions by len-1",
+ "C13": "range rendering decided per sign assignment (Decide oracle)",
+ "C14": "conjunction of fixed lists with the caller's filter (shared with C06)",
+ "C15": "spawning wrappers as virtual go sites + Builder.Add cell rule (shared with C14)",
+ "C16": "refill-in-place aliasing between loop-carried slices (positive control) + bounded shrink marks",
+ "C17": "percentile clamp table under a (k, N) oracle + direction predicate + strictness of Reverse",
+ "C18": "non-zero divisor before division by a resampled statistic",
+ "C19": "literal pieces of the assembled SQL: filter before LIMIT",
+ "C20": "plain INSERT for upload rows + generalised abort guard (flag or nil)",
+}
+
 NOT_YET = "check not built yet in this round (planned in DESIGN.md); not claimed until its rules run clean on the unchanged tree"
 NA = {}
 
@@ -97,6 +120,17 @@ for p in props:
     i = p["id"]
     if i in CLAIMED:
         ref, text, note, tech = CLAIMED[i]
+        ref = ref + "; rules as built: DESIGN.md §0 and Appendix E"
+        # the rule list as built, from the checker's own evidence (rewritten on every run)
+        try:
+            ev = json.load(open(os.path.join(V, "evidence", i + ".json")))
+            rules = ev["coverage"]["rules"]
+            text = text + " Rules as built (" + str(len(rules)) + "): " + "; ".join(r["rule"] + " " + r["description"][:140].rstrip() + ("…" if len(r["description"]) > 140 else "") for r in rules)
+        except Exception:
+            pass
+        extra = TECH_EXTRA.get(i)
+        if extra:
+            tech = tech + " + " + extra
         checks.append({
             "property_id": i,
             "quick_cmd": f"./run check {i} --tier quick",
